@@ -168,6 +168,8 @@ def real_constraints(ctx, I):
                      replay=dict(constraint=name, ty=ty, size=size, sent=sent, step=step, highwater=hw, bound=bound))
     ctx.sample(dict(kind="real-constraint", constraint=name, token=hex(ty), announced=size, highwater=hw, bound=bound))
     pb_index_tokens(ctx)
+    if ctx.build_ok or ctx.coq_build(["lib/OpenerProofs.vo"])[0]:
+        opener_correspondence(ctx)
     # negotiation phase: more than 4096 bytes without a blank line end the attempt
     import foolscap.negotiate as neg
     for total in (4096, 4099, 4100, 10000):
@@ -246,6 +248,50 @@ def pb_index_tokens(ctx):
                 # no result constraint is in force for this request (Any): the class-name bound of the root is the only one
                 ctx.fail("oracle/unbounded-buffering/copyable-classname", "a real Broker held %d bytes of a copyable class-name token announcing %d "
                          "bytes inside an answer" % (hw, size), replay=dict(where=where, size=size, sent=sent, step=step, highwater=hw, bound=bound))
+
+
+def opener_correspondence(ctx):
+    """gen/OpenerGen.v (translated openerCheckToken of both roots) against the real methods on a grid"""
+    from harness import implenv as E
+    from harness.common import coq_list, coq_Z
+    from foolscap import copyable, tokens
+    from foolscap.tokens import Violation
+    from harness import c07_impl as I
+    longest = max(len(k) for k in copyable.CopyableRegistry.keys())
+    tb, cb = E.broker_pair()
+    roots = {"pb": cb.rootUnslicer, "root": I.RealBanana().rootUnslicer}
+    ots = [[], ["copyable"], ["list"], ["copyabl"], ["copyable2"], ["copyable", "x"], ["call"], [""]]
+    tys = [0x80, 0x81, 0x82, 0x83, 0x84, 0x85, 0x86, 0x87, 0x88, 0x89, 0x8A, 0x8D, 0x8E, 0x8F]
+    cases, lines = [], []
+    for kind, root in roots.items():
+        mi = root.maxIndexLength
+        for ot in ots:
+            for ty in tys:
+                for size in sorted({0, 1, mi - 1, mi, mi + 1, longest - 1, longest, longest + 1, 1000, 2 ** 64}):
+                    try:
+                        root.openerCheckToken(bytes([ty]), size, list(ot))
+                        acc = 1
+                    except Violation:
+                        acc = 0
+                    cases.append((kind, ot, ty, size, acc))
+                    lines.append("(%s %s %s %s %s %s)" % ("pb_opener_accepts" if kind == "pb" else "root_opener_accepts", coq_Z(mi), coq_Z(longest),
+                                                         coq_list([coq_list([coq_Z(b) for b in o.encode()]) for o in ot]), coq_Z(ty), coq_Z(size)))
+    body = "Eval vm_compute in map (fun b : bool => if b then 1%Z else 0%Z) " + coq_list(lines) + ".\n"
+    try:
+        (vals,) = ctx.coq_eval("C11_opener", body, requires=["Verif.lib.PyLite", "Verif.gen.BananaGen", "Verif.lib.OpenerBase", "Verif.gen.OpenerGen"])
+    except common.CoqEvalError as e:
+        ctx.fail("correspondence-broken", "the opener model could not be evaluated: " + str(e)[-1200:], has_input=False)
+        return
+    bad = 0
+    for (kind, ot, ty, size, acc), m in zip(cases, vals):
+        ctx.traces += 1
+        if acc != m:
+            bad += 1
+            if bad <= 2:
+                ctx.fail("correspondence/opener", "translated openerCheckToken and the real one disagree: %s root, opentype %r, type byte 0x%02x, size %d: "
+                         "real accepts=%d, model accepts=%d" % (kind, ot, ty, size, acc, m), replay=dict(kind=kind, opentype=ot, ty=ty, size=size), has_input=False)
+    ctx.extra["opener_cases"] = len(cases)
+    ctx.extra["opener_disagreements"] = bad
 
 
 def replay(ctx, data):
